@@ -13,10 +13,12 @@ import SoyVerif.Ops.Escape
 import SoyVerif.Ops.Value
 import SoyVerif.Ops.Msg
 import SoyVerif.Ops.Lexer
+import SoyVerif.Ops.FileParser
 
 open SoyVerif SoyVerif.Ops
 
 def allOps : List Op :=
+  Ops.FileParser.ops ++   -- first: its `leak` handles mode `file` and delegates mode `expr`
   Ops.RawText.ops ++
   Ops.Ast.ops ++
   Ops.Parser.ops ++
